@@ -30,7 +30,7 @@ def run_sets(jobs_by_set, flags="dbg", features=None, env_extra=None, timeout=72
 
     def one(s):
         with vlib.Scratch() as sc:
-            r, err, dt = vlib.run_ai(sc, jobs_by_set[s], flags=flags, features=features, tag="s" + s, env_extra=env_extra, timeout=timeout)
+            r, err, dt = vlib.run_ai(sc, jobs_by_set[s], flags=flags, features=features, tag="s" + re.sub(r"[^A-Za-z0-9_.-]", "_", s), env_extra=env_extra, timeout=timeout)
             return s, r, err, dt
 
     with ThreadPoolExecutor(max_workers=6) as ex:
